@@ -29,12 +29,57 @@ func isColumnCtor(call *ssa.Call) (required bool, ok bool) {
 	return false, false
 }
 
+// resolveProg: the loaded program, for following a column object that a helper receives as a parameter to its call
+// sites (set once after loading).
+var resolveProg *Program
+
+// paramArgs: what the call sites of prm's function pass for prm (nil when there is no caller or the program is unknown).
+func paramArgs(prm *ssa.Parameter) []ssa.Value {
+	fn := prm.Parent()
+	if resolveProg == nil || fn == nil {
+		return nil
+	}
+	idx := -1
+	for i, q := range fn.Params {
+		if q == prm {
+			idx = i
+		}
+	}
+	var out []ssa.Value
+	for _, e := range resolveProg.Callers(fn) {
+		args := e.Site.Common().Args
+		if idx < 0 || idx >= len(args) {
+			return nil
+		}
+		out = append(out, args[idx])
+	}
+	return out
+}
+
 // resolveColumn finds the column a Required/OptionalColumn value denotes.
 func resolveColumn(v ssa.Value, depth int) (*colInfo, string) {
 	if depth > 10 {
 		return nil, "too deep"
 	}
 	switch x := v.(type) {
+	case *ssa.Parameter:
+		// a column object handed to a helper: the same column at every call site
+		args := paramArgs(x)
+		if len(args) == 0 {
+			return nil, "column parameter without a call site"
+		}
+		var res *colInfo
+		for _, a := range args {
+			ci, why := resolveColumn(a, depth+1)
+			if ci == nil {
+				return nil, why
+			}
+			if res != nil && res.name != ci.name {
+				return nil, "column parameter receives several columns"
+			}
+			res = ci
+		}
+		return res, ""
 	case *ssa.Call:
 		if req, ok := isColumnCtor(x); ok {
 			name, isConst := constString(x.Call.Args[1])
@@ -72,6 +117,12 @@ func resolveColumn(v ssa.Value, depth int) (*colInfo, string) {
 			return nil, "captured column variable"
 		case *ssa.IndexAddr:
 			arr, ok := a.X.(*ssa.Alloc)
+			if prm, isPrm := a.X.(*ssa.Parameter); isPrm && !ok {
+				// a pointer to the caller's column array
+				if args := paramArgs(prm); len(args) == 1 {
+					arr, ok = args[0].(*ssa.Alloc)
+				}
+			}
 			if !ok {
 				return nil, "column array is not a local array"
 			}
